@@ -4,6 +4,8 @@ import (
 	"bufio"
 	"fmt"
 	"io"
+	stdlog "log"
+	"os"
 	"sort"
 	"strings"
 	"time"
@@ -11,6 +13,9 @@ import (
 	"verif/mc/harness"
 	"verif/mc/mcrt"
 
+	"verif/ref"
+
+	"github.com/goblimey/go-ntrip/apps/appcore"
 	filehandler "github.com/goblimey/go-ntrip/file_handler"
 	"github.com/goblimey/go-ntrip/jsonconfig"
 	"github.com/goblimey/go-ntrip/rtcm/handler"
@@ -19,7 +24,7 @@ import (
 func init() {
 	Props["C13"] = &harness.Prop{
 		ID:             "C13",
-		Rule:           "file_handler.Handle on the main thread over a scripted source under the controlled scheduler with a virtual clock: the source hands over one byte per Read; at EVERY Read (so at every byte position between and inside frames) the explorer may instead inject a run of 1, 2, 3 or 4 consecutive EOFs, 1 or 4 consecutive i/o timeouts, another error, a 3-byte chunk, or two bytes handed over TOGETHER with EOF, with a timeout or with another error (as io.Reader permits); after the data it reports EOF for ever or another error. Streams {frame, junk+frame, frame+frame, frame+truncated, frame+junk+frame, 1077/8}; tolerance settings {timeout 0 wait 0; timeout 0 wait 10 ms; timeout 5 ms wait 10 ms; timeout 50 ms wait 10 ms; timeout 50 ms wait 0}; message channel capacity {0,1}; the consumer may pause 200 ms (virtual) before accepting any message (one deviation per pause); all combinations of <=2 (quick) / <=3 (thorough) deviations (fault injections + preemptions), with state-key pruning; an unbounded pass is not attempted because the number of fault placements is unbounded by construction. Non-trivial = distinct schedule/fault trace",
+		Rule:           "file_handler.Handle on the main thread over a scripted source under the controlled scheduler with a virtual clock: the source hands over one byte per Read; at EVERY Read (so at every byte position between and inside frames) the explorer may instead inject a run of 1, 2, 3 or 4 consecutive EOFs, 1 or 4 consecutive i/o timeouts, another error, a 3-byte chunk, or two bytes handed over TOGETHER with EOF, with a timeout or with another error (as io.Reader permits); after the data it reports EOF for ever or another error. Streams {frame, junk+frame, frame+frame, frame+truncated, frame+junk+frame, 1077/8}; tolerance settings {timeout 0 wait 0; timeout 0 wait 10 ms; timeout 5 ms wait 10 ms; timeout 50 ms wait 10 ms; timeout 50 ms wait 0}; message channel capacity {0,1}; the consumer may pause 200 ms (virtual) before accepting any message (one deviation per pause); all combinations of <=2 (quick) / <=3 (thorough) deviations (fault injections + preemptions), with state-key pruning; plus a real file that is still being written, opened through Config.WaitAndConnectToInput inside AppCore.HandleMessages (first part ending before, between and inside frames; the rest appended while the reader waits); an unbounded pass is not attempted because the number of fault placements is unbounded by construction. Non-trivial = distinct schedule/fault trace",
 		Assumptions:    []string{"time is virtual: time.Now/time.Sleep of file_handler are routed to the scheduler's clock; a sleeping thread may be resumed at any later step and the clock then jumps to its wake time", "fault results are io.EOF, an error whose text contains 'i/o timeout', and 'connection reset by peer' as the other error", "'resumes within the tolerance' is judged on the handler's own clock: the run of consecutive EOF/timeout results ends before virtual time since its first result exceeds the configured timeout"},
 		Scenarios:      c13Scenarios,
 		QuickBudget:    60 * time.Second,
@@ -143,6 +148,110 @@ func c13Scenarios(tier string) []*mcrt.Scenario {
 					},
 				})
 			}
+		}
+	}
+	scs = append(scs, c13GrowingFile()...)
+	return scs
+}
+
+// growObs: what a growing-file execution observed.  It is also the writer behind
+// Config.SystemLog, where getInputFile reports every successful open.
+type growObs struct {
+	log            *consumerLog
+	opens          int
+	opensAtRemoval int
+	gaveUp         bool // the file handler has logged that it gives up on EOF
+}
+
+func (g *growObs) Write(b []byte) (int, error) {
+	if strings.Contains(string(b), "getInputFile: found") {
+		g.opens++
+	}
+	if strings.Contains(string(b), "giving up on") {
+		g.gaveUp = true
+	}
+	return len(b), nil
+}
+
+// c13GrowingFile: the source is a real file that is still being written,
+// opened the way the applications open their input (Config.WaitAndConnectToInput
+// inside AppCore.HandleMessages).  The reader meets end-of-file inside the
+// second frame, the rest is appended while it waits (at the first moment nothing
+// else can run, i.e. well within the tolerance), and the delivered messages
+// must be those of the whole file.
+func c13GrowingFile() []*mcrt.Scenario {
+	var scs []*mcrt.Scenario
+	f1, f2, f3 := ref.TypedFrame(1005, 19, nil), ref.TypedFrame(1077, 22, nil), ref.TypedFrame(1230, 8, nil)
+	whole := append(append(append([]byte{}, f1...), f2...), f3...)
+	for _, cut := range []int{0, len(f1), len(f1) + 5, len(f1) + len(f2) - 1, len(whole) - 1} {
+		for _, capN := range []int{0, 1} {
+			cut, capN := cut, capN
+			scs = append(scs, &mcrt.Scenario{
+				Name:  fmt.Sprintf("growing-file opened-by-WaitAndConnectToInput first-part=%dB chan=%d", cut, capN),
+				Bound: 1, Horizon: 200000, Prune: true, MaxExecutions: 1500,
+				Body: func(x *mcrt.X) {
+					log := &consumerLog{}
+					gf := &growObs{log: log}
+					x.Data = gf
+					dir, err := os.MkdirTemp("", "c13file")
+					if err != nil {
+						panic("harness: " + err.Error())
+					}
+					defer os.RemoveAll(dir)
+					path := dir + "/input.rtcm"
+					if err := os.WriteFile(path, whole[:cut], 0o644); err != nil {
+						panic("harness: " + err.Error())
+					}
+					ch := make(chan handler.Message, capN)
+					consume("consumer", ch, log)
+					conf := &jsonconfig.Config{Filenames: []string{path}, TimeoutOnEOFMilliSeconds: 500, WaitTimeOnEOFMilliseconds: 20,
+						SleepTimeAfterFailedOpenMilliSeconds: 50, ReadTimeoutMilliSeconds: 100,
+						SystemLog: stdlog.New(gf, "", 0)}
+					core := appcore.New(conf, []chan handler.Message{ch})
+					mcrt.Go("AppCore.HandleMessages", func() { core.HandleMessages(T0) })
+					// the writer of the file: acts only when nothing else can run
+					mcrt.GoLow("file-writer", func() {
+						mcrt.Yield("append the rest")
+						if f, err := os.OpenFile(path, os.O_APPEND|os.O_WRONLY, 0); err == nil {
+							f.Write(whole[cut:])
+							f.Close()
+						}
+						mcrt.Sleep(300 * time.Millisecond) // within the tolerance; the reader retries every 20 ms
+						gf.opensAtRemoval = gf.opens
+						os.Remove(path) // so that the endless outer loop finds nothing to open again
+						// the scenario ends once the reader has given up on the silent file
+						// (timers may fire in any order, so wait for the event, not for a time)
+						for i := 0; i < 50 && !gf.gaveUp; i++ {
+							mcrt.Sleep(time.Second)
+						}
+						mcrt.Sleep(time.Second)
+						mcrt.Stop()
+					})
+					mcrt.Sleep(time.Hour) // the main thread just waits for the Stop
+				},
+				Check: func(x *mcrt.X) *mcrt.Failure {
+					gf := x.Data.(*growObs)
+					log := gf.log
+					if len(x.Panics) > 0 {
+						p := x.Panics[0]
+						return &mcrt.Failure{Kind: "panic in " + p.Thread + ": " + firstLine(p.Value) + " @" + p.Site, Detail: p.Stack}
+					}
+					if x.End != mcrt.EndStopped {
+						return &mcrt.Failure{Kind: "growing-file scenario did not reach its end: " + x.End, Detail: fmt.Sprint(x.Blocked)}
+					}
+					if gf.opensAtRemoval != 1 || gf.opens != 1 {
+						// schedules in which the file vanished before the program opened it, or
+						// in which it was opened a second time: nothing to judge
+						harness.Outcome(fmt.Sprintf("growing file not judged (opened %d times, %d before it was removed)", gf.opens, gf.opensAtRemoval))
+						return nil
+					}
+					if ok, d := sameAsSequential(log.msgs, whole); !ok {
+						return &mcrt.Failure{Kind: "delivered-messages-differ-from-uninterrupted-framing-of-supplied-bytes", Detail: "file still being written, opened through WaitAndConnectToInput: " + d}
+					}
+					harness.Outcome("growing file delivered whole")
+					return nil
+				},
+			})
 		}
 	}
 	return scs
